@@ -58,6 +58,30 @@ def fl(x):
     return float("inf") if x >= INF else float(x)
 
 
+def sis_lattice_scenarios(seed, n_random, sizes=(2, 3, 4)):
+    """SIS scenarios whose durations and delays are small multiples of one step: simultaneous events everywhere
+    (a transmission that arrives exactly when its target recovers, two infections of neighbours at one instant ...).
+    The order of simultaneous events is not specified; what must hold whatever the order is checked by C04 / C10."""
+    rng = pyrandom.Random(seed + 104729)
+    out = []
+    for _ in range(n_random):
+        n = rng.choice(sizes)
+        adj = [[0] * n for _ in range(n)]
+        for u in range(n):
+            for v in range(u + 1, n):
+                if rng.random() < 0.8:
+                    adj[u][v] = adj[v][u] = 1
+        init = ["S"] * n
+        for u in rng.sample(range(n), rng.choice([1, 2, 2])):
+            init[u] = "I"
+        K = 2
+        dur = [[rng.choice([1, 2, 3]) for _ in range(K)] for _ in range(n)]
+        delay = [[[sorted(rng.sample([1, 2, 3, 4, 5], rng.choice([0, 1, 2, 3]))) if adj[u][v] else [] for _k in range(K)] for v in range(n)] for u in range(n)]
+        out.append({"n": n, "adj": adj, "init": init, "k": K, "dur": dur, "delay": delay, "tmin": 0, "tmax": rng.choice([6, 9, 12]),
+                    "sorted": 1, "late": 1, "directed": 0, "shift": 0})
+    return out
+
+
 def sis_scenarios(seed, n_random, sizes=(2, 3, 4), unsorted_frac=0.0):
     rng = pyrandom.Random(seed + 7919)
     out = []
